@@ -39,6 +39,7 @@ Digit(n) == <<48 + n>>
 Get(c, k) == L_S_GET_A \o Digit(c) \o <<47>> \o Digit(k) \o L_S_GET_B
 PutExpect(c, k) == L_S_PUT_A \o Digit(c) \o <<47>> \o Digit(k) \o L_S_PUT_B
 PutBig(c, k) == L_S_BIG_A \o Digit(c) \o <<47>> \o Digit(k) \o L_S_BIG_B
+PutBigExpect(c, k) == L_S_BIG_A \o Digit(c) \o <<47>> \o Digit(k) \o L_S_BIGX_B
 
 Program(c, p) ==
     CASE p = 1 -> <<Get(c, 1)>>
@@ -49,6 +50,7 @@ Program(c, p) ==
       [] p = 6 -> <<Get(c, 1), Get(c, 2)>>
       [] p = 7 -> <<PutBig(c, 1)>>                      \* declares more than the limit
       [] p = 8 -> <<Get(c, 1) \o L_S_BAD>>              \* valid request discarded with the malformed one
+      [] p = 10 -> <<PutBigExpect(c, 1)>>               \* asks for 100 Continue but declares more than the limit
       [] p = 9 -> <<Get(c, 1) \o Get(c, 2) \o Get(c, 3)>>   \* three deep: answers may be supplied around a write
 WellFormed(p) == p \in {1, 2, 3, 4, 6, 9}
 
@@ -169,7 +171,7 @@ CapacityOK == CapOK(S)
 \* C07
 TokensOK == TokenOK(S) /\ (S.res = "shutdown" \/ InflOK(S))
 \* C08
-InterestsOK == InterestOK(S)
+InterestsOK == InterestOK(S) /\ ClosedNoOutput(S)
 
 \* C12 (server level): descriptors are conserved, never duplicated, and stay with the client that sent them
 FilesOK == FilesOwnedOK(S) /\ FilesOnceOK(S)
@@ -202,7 +204,15 @@ Refused503 ==
     \A c \in Clients :
         (S.cl[c].refused /\ S.cl[c].st = "open" /\ ~S.cl[c].rd)
             => /\ S.cl[c].srvClosed /\ S.cl[c].fd = 0
-               /\ \E i \in 1..(Len(L_SERVER_FULL) + 1) : S.s2c[c] = From(L_SERVER_FULL, i)
+               \* what it has received plus what still waits for it is exactly the fixed message
+               /\ S.cl[c].rcvd + Len(S.s2c[c]) = Len(L_SERVER_FULL)
+               /\ S.s2c[c] = From(L_SERVER_FULL, S.cl[c].rcvd + 1)
+
+\* C04 / C13 at the server: a request refused for its size is answered with the 400 only -- never invited
+\* to send its body.  For configurations WITHOUT program 4 (the only one entitled to an interim response):
+\* no client ever has a 100 Continue on its socket (program 10 asks for one and declares too much).
+NoContinueForRefused ==
+    \A c \in Clients : ~Contains(S.s2c[c], <<49, 48, 48, 32, 13, 10>>)
 
 \* C18: a poll that starts after the signal reports shutdown; the signal keeps epoll ready
 KillWins == (mode = "app" /\ kAtStart) => S.res = "shutdown"
